@@ -7,7 +7,12 @@ use crate::ctl::{Ev, Inner, Kind};
 ///        not yet executed its fetch_add (or another dispatcher was between its test and its spawn) and the
 ///        counter it read was below the limit  (the known counter lag)
 ///   "other"  anything else (e.g. a spawn although the counter was at the limit, broken accounting)
-pub fn over_cause(g: &Inner, upto: usize, limit: usize) -> &'static str {
+///
+/// `exact` = the log order is the real order (steered replay: threads only move when granted and the
+/// counter value carried by the load hook is the value the test reads). In a free-running stress the hook
+/// of an operation is logged some time before the operation, so only the existence of a test that passed
+/// while a spawned worker was possibly uncounted is required.
+pub fn over_cause(g: &Inner, upto: usize, limit: usize, exact: bool) -> &'static str {
     let log = &g.log[..upto.min(g.log.len())];
     // passing loads: (index, role, b) whose next hook of the same role is pool.d.spawn
     let mut passing: Vec<(usize, usize, u64, usize)> = Vec::new(); // (load idx, role, b, spawn idx)
@@ -48,15 +53,21 @@ pub fn over_cause(g: &Inner, upto: usize, limit: usize) -> &'static str {
         }
         let pending_others = passing.iter().filter(|&&(li, r, _, si)| r != role && li < i && si > i).count();
         let committed = spawned + pending_others - exits.min(spawned);
-        if committed >= limit {
-            over_commits += 1;
-            let uncounted = spawned.saturating_sub(counted) + pending_others;
-            if uncounted >= 1 && (b as usize) < limit {
-                lagged += 1;
+        let uncounted = spawned.saturating_sub(counted) + pending_others;
+        if exact {
+            if committed >= limit {
+                over_commits += 1;
+                if uncounted >= 1 && (b as usize) < limit {
+                    lagged += 1;
+                }
             }
+        } else if uncounted >= 1 {
+            over_commits += 1;
+            lagged += 1;
         }
     }
-    if over_commits > 0 && lagged == over_commits { "load-before-spawned-worker-counted" } else { "other" }
+    let known = if exact { over_commits > 0 && lagged == over_commits } else { lagged > 0 };
+    if known { "load-before-spawned-worker-counted" } else { "other" }
 }
 
 pub struct HangClass {
